@@ -592,5 +592,9 @@ def truthy(v):
         return V(BOOL, z3.And(z3.Not(s.is_none(v)), truthy(s.val(v)).t))
     if isinstance(s, Tup):
         return V(BOOL, z3.BoolVal(len(s.elems) > 0))
-    # opaque objects, enums, object references, functions: truthy
+    if isinstance(s, Opaque):
+        # an opaque value may be falsy (0, '', None, an empty container): uninterpreted truth value
+        f = z3.Function("Truthy_" + s.oname, s.z3(), z3.BoolSort())
+        return V(BOOL, f(v.t))
+    # enums, object references, functions, classes: truthy
     return TRUE
